@@ -4,6 +4,7 @@ The harnesses call the real impl_horzcat_fxn / impl_vertcat_fxn (private; harnes
 kissat) on symbolic blocks of concrete shapes and compare every element of the result with the block that covers it.
 A complete two-row literal is the composition vertcat(horzcat(row1), horzcat(row2)).
 """
+import os, re
 from ..model import H
 from .common import *
 from .c03 import slice_for as c03_slice
@@ -29,8 +30,17 @@ def block_value(t, k, form, shape):
     return s
 
 
-def gen_cat(direction, t, blocks, tier):
-    """blocks: list of (form, (r,c)).  direction 'h': same rows, columns add up; 'v': same cols, rows add up"""
+ARMS = {   # (direction, arm triple) -> name
+    ("h", ("2", "m", "n")): "h2mn", ("h", ("3", "m", "n")): "h3mn", ("h", ("4", "m", "n")): "h4mn", ("h", ("l", "m", "n")): "hlmn",
+    ("h", ("m", "1", "n")): "hm1n",
+    ("v", ("2", "m", "n")): "v2mn", ("v", ("3", "m", "n")): "v3mn", ("v", ("4", "m", "n")): "v4mn", ("v", ("l", "m", "n")): "vlmn",
+    ("v", ("2", "m", "1")): "v2m1", ("v", ("3", "m", "1")): "v3m1", ("v", ("4", "m", "1")): "v4m1", ("v", ("l", "m", "1")): "vlm1",
+}
+
+
+def gen_cat(direction, t, blocks, tier, arm=None):
+    """blocks: list of (form, (r,c)).  direction 'h': same rows, columns add up; 'v': same cols, rows add up.
+    arm: None = through the whole dispatch function; a triple = through that arm of the dispatch macro only (common.extract_macro_arm)"""
     fxn = "impl_horzcat_fxn" if direction == "h" else "impl_vertcat_fxn"
     where = WH if direction == "h" else WV
     b = []
@@ -44,7 +54,13 @@ def gen_cat(direction, t, blocks, tier):
         R = sum(s[0] for _, s in blocks)
     b.append("let args = [%s];" % ", ".join("bv%d" % k for k in range(len(blocks))))
     b.append("kani::cover!(true, \"VP:reached-call\");")
-    b.append("match vp_%s(&args[..]) {" % fxn)
+    if arm:
+        an = ARMS[(direction, arm)]
+        vals = {0: len(blocks), 1: R, 2: C}
+        extra = "".join(", %d" % vals[i] for i, x in enumerate(arm) if re.fullmatch(r"[a-z_]\w*", x))
+        b.append("match vp_arm_%s_%s(&args[..]%s) {" % (an, t.lower(), extra))
+    else:
+        b.append("match vp_%s(&args[..]) {" % fxn)
     b.append("  Err(e) => { forget(e); assert!(false, \"VP:rejected-compatible-blocks\"); }")
     b.append("  Ok(f) => {")
     b.append("    f.solve();")
@@ -71,19 +87,97 @@ def gen_cat(direction, t, blocks, tier):
     b.append("}")
     b.append("forget(args);")
     tag = "_".join("%s%dx%d" % (f.lower(), s[0], s[1]) for f, s in blocks)
-    h = H("c11_%scat_%s_%s" % (direction, t.lower(), tag), "    " + "\n    ".join(b), where, domain="accept", key="%s/%s/%s" % (fxn, t, tag),
+    if arm:
+        fxn = "%s arm (%s)" % ("impl_horzcat_arms!" if direction == "h" else "impl_vertcat_arms!", ",".join(arm))
+    h = H("c11_%scat_%s%s_%s" % (direction, ("arm_" if arm else ""), t.lower(), tag), "    " + "\n    ".join(b), where, domain="accept", key="%s/%s/%s" % (fxn, t, tag),
           desc="%s of blocks [%s] (%s): accepted, result %dx%d, every element is the element of the block that covers it"
                % ("horizontal concatenation" if direction == "h" else "vertical concatenation",
                   ", ".join("%s %dx%d" % (f, s[0], s[1]) for f, s in blocks), t, R, C),
           functions=["%s (src/interpreter/src/stdlib/%s: pattern table, output allocation)" % (fxn, where[1].split("/")[-1]),
                      "concatenation struct solve/out + CopyMat::copy_into* (src/core/src/structures/matrix.rs)"],
-          bounds="%d blocks, result %dx%d, all element values" % (len(blocks), R, C), unwind=max(R, C, len(blocks)) + 2, tier=tier,
+          bounds="%d blocks, result %dx%d, all element values" % (len(blocks), R, C), unwind=(max(R * C, len(blocks)) if arm else max(R, C, len(blocks))) + 2, tier=tier,
           group=fxn, solver="kissat")
     h.slice = slice_for(t)
     h.heavy = True
     # the dispatchers collect the blocks' kinds in a HashSet<ValueKind>: all-colliding hasher stub, see c14.HASHER_STUBS
     from .c14 import STUB_RS, STUB_DH
     h.attrs = [STUB_RS] + STUB_DH
+    if any(f != "S" for f, _ in blocks):
+        h.stub_kind_as = TY_VARIANT[t]
+    if arm:
+        h.arm = (direction, arm)
+        h.heavy = False
+    return h
+
+
+ARGS_STRUCT = {2: "TwoArgs", 3: "ThreeArgs", 4: "FourArgs"}
+
+
+def gen_l1(direction, t, blocks, tier, out_form="MD"):
+    """L1: the concatenation struct built the way its dispatch arm builds it (blocks through Matrix::get_copyable_matrix, output
+    allocated with the total shape and the element kind's default), then the real solve()/out().
+    out_form MD: {Horizontal,Vertical}Concatenate{TwoArgs,ThreeArgs,FourArgs,NArgs} (DMatrix output);
+    out_form VD: VerticalConcatenateVD{2,3,4} (column vectors stacked into a DVector)."""
+    n = len(blocks)
+    pre = "HorizontalConcatenate" if direction == "h" else "VerticalConcatenate"
+    where = WH if direction == "h" else WV
+    if out_form == "VD":
+        struct = "%sVD%d" % (pre, n)
+    else:
+        struct = pre + ARGS_STRUCT.get(n, "NArgs")
+    b = []
+    for k, (form, shape) in enumerate(blocks):
+        nel = shape[0] * shape[1]
+        b.append(sym_array(t, "b%d" % k, nel))
+        b.append("let rc%d = Ref::new(%s);" % (k, mk_form(form, t, "b%d" % k, shape)))
+        b.append("let e%d: Box<dyn CopyMat<%s>> = Matrix::%s(rc%d.clone()).get_copyable_matrix();" % (k, t, SHAPE_IDENT[form], k))
+    if direction == "h":
+        R = blocks[0][1][0]
+        C = sum(sh[1] for _, sh in blocks)
+    else:
+        C = blocks[0][1][1]
+        R = sum(sh[0] for _, sh in blocks)
+    if out_form == "VD":
+        b.append("let out = Ref::new(DVector::<%s>::from_element(%d, %s));" % (t, R, default_of(t)))
+    else:
+        b.append("let out = Ref::new(DMatrix::<%s>::from_element(%d, %d, %s));" % (t, R, C, default_of(t)))
+    if struct.endswith("NArgs"):
+        b.append("let f = %s::<%s> { e0: vec![%s], out: out.clone() };" % (struct, t, ", ".join("e%d" % k for k in range(n))))
+    else:
+        b.append("let f = %s::<%s> { %s, out: out.clone() };" % (struct, t, ", ".join("e%d" % k for k in range(n))))
+    b.append("f.solve();")
+    b.append("let v = f.out();")
+    b.append(extract(t))
+    b.append("assert!(rows == %d && cols == %d, \"VP:wrong-shape\");" % (R, C))
+    checks = []
+    off = 0
+    for k, (form, (r, c)) in enumerate(blocks):
+        for j in range(c):
+            for i in range(r):
+                src = "b%d[%d]" % (k, i + j * r)
+                dst = "rd(%d)" % ((i + (off + j) * R) if direction == "h" else ((off + i) + j * R))
+                checks.append(eq_expr(t, dst, src))
+        off += c if direction == "h" else r
+    b.append("if rows == %d && cols == %d { assert!(%s, \"VP:block-element-misplaced\"); }" % (R, C, " && ".join(checks)))
+    # the blocks themselves are not modified
+    b.append("assert!(%s, \"VP:block-modified\");" % " && ".join(
+        "{ let s = rc%d.borrow(); %s }" % (k, " && ".join(eq_expr(t, "s[%d]" % q, "b%d[%d]" % (k, q)) for q in range(sh[0] * sh[1])))
+        for k, (_, sh) in enumerate(blocks)))
+    # C19 rider: a second solve() over a scribbled output gives the same matrix
+    b.append("{ let mut o = out.borrow_mut(); let z: %s = %s; o[0] = z; }" % (t, "kani::any()" if t in INTS + FLOATS + ["bool"] else default_of(t)))
+    b.append("f.solve();")
+    b.append("{ let o = out.borrow(); assert!(%s, \"VP:second-solve-differs\"); }" % eq_expr(t, "o[0]", "b0[0]"))
+    b.append("kani::cover!(true, \"VP:reached\");")
+    b.append("forget(v); forget(f); forget(out);" + "".join(" forget(rc%d);" % k for k in range(n)))
+    tag = "_".join("%s%dx%d" % (f_.lower(), sh[0], sh[1]) for f_, sh in blocks)
+    h = H("c11_l1_%scat_%s_%s%s" % (direction, t.lower(), tag, "_vd" if out_form == "VD" else ""), "    " + "\n    ".join(b), where, domain="accept",
+          key="L1/%s/%s/%s" % (struct, t, tag),
+          desc="%s<%s> built as its dispatch arm builds it from blocks [%s]: result %dx%d, every element is the element of the block that covers it "
+               "(column-major), blocks unchanged, a second solve() restores a scribbled output" % (struct, t, ", ".join("%s %dx%d" % (f_, sh[0], sh[1]) for f_, sh in blocks), R, C),
+          functions=["%s::solve/out (src/interpreter/src/stdlib/%s)" % (struct, where[1].split("/")[-1]),
+                     "Matrix::get_copyable_matrix, CopyMat::%s (src/core/src/structures/matrix.rs)" % ({"h": "copy_into", "v": "copy_into_row_major"}[direction] if out_form == "MD" else "copy_into_v")],
+          bounds="%d blocks, result %dx%d, all element values" % (n, R, C), unwind=max(R * C, n) + 2, tier=tier, group="L1-" + struct)
+    h.slice = slice_for(t)
     return h
 
 
@@ -121,12 +215,89 @@ def plan(tier, seed):
                             "(Vec<(Box<dyn CopyMat<T>>, usize)> kernels): out of 9 GB / no verdict in 900 s")
         elif h.tier != "quick":
             h.tier = "quick"
+    # L1: the general-purpose concatenation structs with vector and matrix blocks
+    l1h = [[(VD, (2, 1)), (VD, (2, 1))], [(MD, (2, 2)), (VD, (2, 1))], [(VD, (2, 1)), (MD, (2, 2))], [(MD, (2, 2)), (MD, (2, 2))],
+           [(VD, (3, 1)), (MD, (3, 2))], [(VD, (2, 1)), (VD, (2, 1)), (VD, (2, 1))], [(VD, (2, 1)), (MD, (2, 2)), (VD, (2, 1))],
+           [(MD, (2, 2)), (VD, (2, 1)), (MD, (2, 1))], [(VD, (2, 1)), (VD, (2, 1)), (VD, (2, 1)), (VD, (2, 1))],
+           [(VD, (2, 1)), (MD, (2, 2)), (VD, (2, 1)), (MD, (2, 1))], [(VD, (2, 1)), (VD, (2, 1)), (VD, (2, 1)), (VD, (2, 1)), (VD, (2, 1))],
+           [(MD, (2, 2)), (VD, (2, 1)), (VD, (2, 1)), (VD, (2, 1)), (MD, (2, 1))]]
+    l1v = [[(RD, (1, 2)), (RD, (1, 2))], [(MD, (2, 2)), (RD, (1, 2))], [(RD, (1, 2)), (MD, (2, 2))], [(MD, (2, 2)), (MD, (2, 2))],
+           [(RD, (1, 3)), (MD, (2, 3))], [(RD, (1, 2)), (RD, (1, 2)), (RD, (1, 2))], [(RD, (1, 2)), (MD, (2, 2)), (RD, (1, 2))],
+           [(RD, (1, 2)), (RD, (1, 2)), (RD, (1, 2)), (RD, (1, 2))], [(MD, (2, 2)), (RD, (1, 2)), (RD, (1, 2)), (MD, (1, 2))],
+           [(RD, (1, 2)), (RD, (1, 2)), (RD, (1, 2)), (RD, (1, 2)), (RD, (1, 2))], [(RD, (1, 2)), (MD, (2, 2)), (RD, (1, 2)), (RD, (1, 2)), (RD, (1, 2))]]
+    l1 = []
+    for k, c in enumerate(l1h):
+        l1.append(gen_l1("h", t, c, "quick" if (len(c) != 3 or k % 2 == seed % 2) else "thorough"))
+    for k, c in enumerate(l1v):
+        l1.append(gen_l1("v", t, c, "quick" if (len(c) != 3 or k % 2 == seed % 2) else "thorough"))
+    l1.append(gen_l1("v", t, [(VD, (2, 1)), (VD, (2, 1))], "quick", out_form="VD"))
+    l1.append(gen_l1("v", t, [(VD, (2, 1)), (VD, (1, 1)), (VD, (2, 1))], "quick", out_form="VD"))
+    l1.append(gen_l1("v", t, [(VD, (1, 1)), (VD, (2, 1)), (VD, (1, 1)), (VD, (2, 1))], "quick", out_form="VD"))
+    l1.append(gen_l1("h", "u8", [(MD, (2, 2)), (VD, (2, 1))], "thorough"))
+    l1.append(gen_l1("v", "i64", [(RD, (1, 2)), (MD, (2, 2))], "thorough"))
+    l1.append(gen_l1("h", "bool", [(VD, (2, 1)), (VD, (2, 1)), (VD, (2, 1))], "thorough"))
+    hs += l1
+    # arm level: the dynamic arms of the dispatch macros with vector / matrix blocks
+    armc = [("h", ("2", "m", "n"), [(VD, (2, 1)), (VD, (2, 1))]), ("h", ("2", "m", "n"), [(MD, (2, 2)), (VD, (2, 1))]),
+            ("h", ("3", "m", "n"), [(VD, (2, 1)), (MD, (2, 2)), (VD, (2, 1))]), ("h", ("4", "m", "n"), [(VD, (2, 1)), (VD, (2, 1)), (VD, (2, 1)), (VD, (2, 1))]),
+            ("h", ("4", "m", "n"), [(MD, (2, 2)), (VD, (2, 1)), (VD, (2, 1)), (MD, (2, 1))]),
+            ("h", ("l", "m", "n"), [(VD, (2, 1)), (VD, (2, 1)), (MD, (2, 2)), (VD, (2, 1)), (VD, (2, 1))]),
+            ("h", ("m", "1", "n"), [(RD, (1, 2)), (RD, (1, 2))]), ("h", ("m", "1", "n"), [(S, (1, 1)), (RD, (1, 2)), (S, (1, 1))]),
+            ("h", ("m", "1", "n"), [(RD, (1, 2)), (S, (1, 1)), (RD, (1, 1)), (S, (1, 1))]),
+            ("v", ("2", "m", "n")), ("v", ("3", "m", "n")), ("v", ("4", "m", "n")), ("v", ("l", "m", "n")),
+            ("v", ("2", "m", "1")), ("v", ("3", "m", "1")), ("v", ("4", "m", "1")), ("v", ("l", "m", "1"))]
+    vblocks = {("2", "m", "n"): [[(RD, (1, 2)), (RD, (1, 2))], [(MD, (2, 2)), (RD, (1, 2))]], ("3", "m", "n"): [[(RD, (1, 2)), (MD, (2, 2)), (RD, (1, 2))]],
+               ("4", "m", "n"): [[(RD, (1, 2)), (RD, (1, 2)), (RD, (1, 2)), (RD, (1, 2))], [(MD, (2, 2)), (RD, (1, 2)), (RD, (1, 2)), (MD, (1, 2))]],
+               ("l", "m", "n"): [[(RD, (1, 2)), (RD, (1, 2)), (MD, (2, 2)), (RD, (1, 2)), (RD, (1, 2))]],
+               ("2", "m", "1"): [[(VD, (2, 1)), (VD, (2, 1))], [(VD, (2, 1)), (VD, (1, 1))]], ("3", "m", "1"): [[(VD, (2, 1)), (VD, (1, 1)), (VD, (2, 1))]],
+               ("4", "m", "1"): [[(VD, (1, 1)), (VD, (2, 1)), (VD, (1, 1)), (VD, (2, 1))]], ("l", "m", "1"): [[(VD, (1, 1)), (VD, (2, 1)), (VD, (1, 1)), (VD, (1, 1)), (VD, (1, 1))]]}
+    arms = []
+    for c in armc:
+        if len(c) == 3:
+            arms.append(gen_cat(c[0], t, c[2], "quick", arm=c[1]))
+        else:
+            for bl in vblocks[c[1]]:
+                arms.append(gen_cat(c[0], t, bl, "quick", arm=c[1]))
+    arms.append(gen_cat("h", "u8", [(MD, (2, 2)), (VD, (2, 1)), (VD, (2, 1)), (MD, (2, 1))], "thorough", arm=("4", "m", "n")))
+    hs += arms
+    if os.environ.get("VERIF_C11_DEBUG"):
+        b = ["let a: [f64; 2] = kani::any();",
+             "let r1 = Ref::new(DVector::<f64>::from_element(2, 0.0));",
+             "let m1 = Matrix::DVector(r1.clone()); let m1b = Matrix::DVector(r1.clone());",
+             "if let Matrix::DVector(r) = &m1 { if r.addr() != r1.addr() { let mut i = 0u32; while i < 1000 { i += 1; } } }",
+             "if let Matrix::DVector(r) = &m1b { if r.addr() != r1.addr() { let mut i = 0u32; while i < 1000 { i += 1; } } }",
+             "let mut d2 = DVector::<f64>::from_element(2, 0.0); d2[0] = a[0]; d2[1] = a[1]; let r2 = Ref::new(d2);",
+             "let m2 = Matrix::DVector(r2.clone());",
+             "if let Matrix::DVector(r) = &m2 { if r.addr() != r2.addr() { let mut i = 0u32; while i < 1000 { i += 1; } } }",
+             "if let Matrix::DVector(r) = &m2 { if r.borrow().nrows() != 2 { let mut i = 0u32; while i < 1000 { i += 1; } } }",
+             "if let Matrix::DVector(r) = &m1 { if r.borrow().nrows() != 2 { let mut i = 0u32; while i < 1000 { i += 1; } } }",
+             "let r3 = Ref::new(DVector::<f64>::from_vec(a.to_vec())); let m3 = Matrix::DVector(r3.clone());",
+             "if let Matrix::DVector(r) = &m3 { if r.borrow().nrows() != 2 { let mut i = 0u32; while i < 1000 { i += 1; } } }",
+             "if let Matrix::DVector(r) = &m3 { if r.addr() != r3.addr() { let mut i = 0u32; while i < 1000 { i += 1; } } }",
+             "kani::cover!(true, \"VP:reached\");", "forget(r2); forget(r1); forget(m2); forget(m1); forget(m1b); forget(r3); forget(m3);"]
+        h = H("c11_dbg_shape", "    " + "\n    ".join(b), WH, domain="accept", key="dbg", unwind=4, tier="quick", solver="kissat")
+        h.slice = slice_for(t)
+        hs.append(h)
     pre, extracted = {}, {}
     for where, fx, rel in ((WH, "impl_horzcat_fxn", "src/interpreter/src/stdlib/horzcat.rs"), (WV, "impl_vertcat_fxn", "src/interpreter/src/stdlib/vertcat.rs")):
         t_, h_ = extract_dispatch_fn(read_repo(rel), fx, rel)
         from .c14 import HASHER_STUBS
         pre[where] = HASHER_STUBS + t_
         extracted[fx] = h_
+        d = "h" if where == WH else "v"
+        macro = "impl_horzcat_arms" if d == "h" else "impl_vertcat_arms"
+        for (dd, triple), an in sorted(ARMS.items()):
+            if dd != d:
+                continue
+            kinds = sorted(set(h.name.split("_arm_")[1].split("_")[0] for h in hs if getattr(h, "arm", None) == (dd, triple)))
+            if not kinds:
+                continue
+            txt, binders, sha = extract_macro_arm(read_repo(rel), macro, triple, rel, "vp_armgen_" + an)
+            pre[where] += txt
+            for k in kinds:
+                ty = {"string": "String", "r64": "R64", "c64": "C64"}.get(k, k)
+                pre[where] += "  #[cfg(feature = \"%s\")]\n  vp_armgen_%s!(vp_arm_%s_%s, %s, %s::default());\n" % (FEAT_OF.get(ty, ty), an, an, k, ty, ty)
+            extracted["%s!(%s)" % (macro, ",".join(triple))] = sha
     return {
         "harnesses": hs,
         "incrate_prelude": pre,
